@@ -158,10 +158,24 @@ func runDec(entry string, inp []byte, big int, bm string, proj bool) Dec {
 		if entry == "body" {
 			e.Proj = bp
 		} else {
+			disturb(entry, inp)
 			e.Proj = rm.Project(m)
 		}
 	}
 	return e
+}
+
+// disturb: the same input is decoded once more into ANOTHER fresh nas.Message whose every content octet is then inverted.
+// A decoded message owns its bodies and elements: if a constructor hands out a shared or pooled instance, the first
+// message - projected only after this - shows the second one's octets.
+func disturb(entry string, inp []byte) {
+	ev.Guard(func() {
+		m2 := nas.NewMessage()
+		c2 := append([]byte{}, inp...)
+		if decodeEntry(m2, entry, &c2) == nil {
+			rm.ScribbleMessage(m2)
+		}
+	})
 }
 
 // prev is the message of an earlier case.  Between producing a result and reading it the driver makes an
@@ -484,6 +498,32 @@ func execCase(c Case, rng *rand.Rand, emit func(interface{})) {
 		} else {
 			emit(runDec(c.Entry, inp, c.Big, c.M, true))
 		}
+	case "dechold": // Inp is decoded; then Inp2 is decoded into ANOTHER fresh nas.Message (and re-encoded) while the first message is
+		// held; the event describes the FIRST decode, projected only afterwards: a decoded message owns its bodies and elements
+		m := nas.NewMessage()
+		first := ev.Bytes(c.Inp)
+		e := Dec{Op: "Dec", Entry: c.Entry, N: len(c.Inp), Inp: c.Inp, Proj: rm.EmptyProj()}
+		var err error
+		pi := ev.Guard(func() { err = decodeEntry(m, c.Entry, &first) })
+		if pi != nil {
+			e.Panic, e.Pfn = true, pi.Fn+": "+pi.Kind
+			emit(e)
+			break
+		}
+		ev.Guard(func() {
+			for r := 0; r < 2; r++ {
+				m2 := nas.NewMessage()
+				second := ev.Bytes(c.Inp2)
+				if decodeEntry(m2, c.Entry, &second) == nil {
+					_, _ = m2.PlainNasEncode()
+				}
+			}
+		})
+		if e.Ok = err == nil; e.Ok {
+			disturb(c.Entry, first)
+			e.Proj = rm.Project(m)
+		}
+		emit(e)
 	case "dec2": // object reuse: Inp2 is decoded into the same nas.Message right after Inp; the event describes the second decode
 		m := nas.NewMessage()
 		first := ev.Bytes(c.Inp)
